@@ -140,7 +140,7 @@ prop('C20',
      scenarios=lambda tier: hist_scenarios(tier) + [sc('fault'), sc('binary')],
      diverge={'U': {'ctr'}},
      nontrivial=lambda u: True,
-     rule='(also: the production binary's /metrics page, scraped after bastion traffic, must show per log exactly the requests that reached Update and those answered 200) the four witness counters are read through a recording MetricFactory before and after every Update of the C09 histories; compared with the model and with the increments implied by the verdict',
+     rule='(also: the /metrics page of the production binary, scraped after bastion traffic, must show per log exactly the requests that reached Update and those answered 200) the four witness counters are read through a recording MetricFactory before and after every Update of the C09 histories; compared with the model and with the increments implied by the verdict',
      exhaustive=True)
 
 prop('C02',
@@ -262,7 +262,7 @@ prop('C06',
      scenarios=lambda tier: [sc('crash')] + ([sc('crash')] if tier == 'thorough' else []) + [sc('fault'), sc('binary')],
      diverge={'CR': None, 'U': {'accept', 'post', 'calls'}},
      nontrivial_line=lambda k, line: k == 'CR' and 'killed=1' in line,
-     rule='(also the production binary: killed idle and, after a restart on the existing file, killed INSIDE a commit — this process holds a read transaction on the database file so that the binary's COMMIT waits with its rollback journal on disk — everything acknowledged must be served by the next start) for first-use, growth and refresh updates (also: first use and refresh of the size-0 placeholder, an update right after a refused one and right after an accepted one by the same process, a store written in the released on-disk format) on a file-backed SQLite store opened through a wrapping database/sql driver (production pool size), a child process SIGKILLs itself at every driver-event boundary (entry and completion of begin, query, rows.Next, exec, commit; plus one run to completion); acknowledgements are flushed to a pipe before anything else; a fresh process reopens the file and reports every log\'s checkpoint (verified under log and witness keys) and the log list; compared with the model\'s prediction for that kill point; non-trivial = the process was killed',
+     rule='(also the production binary: killed idle and, after a restart on the existing file, killed INSIDE a commit — this process holds a read transaction on the database file so that the COMMIT of the binary waits with its rollback journal on disk — everything acknowledged must be served by the next start) for first-use, growth and refresh updates (also: first use and refresh of the size-0 placeholder, an update right after a refused one and right after an accepted one by the same process, a store written in the released on-disk format) on a file-backed SQLite store opened through a wrapping database/sql driver (production pool size), a child process SIGKILLs itself at every driver-event boundary (entry and completion of begin, query, rows.Next, exec, commit; plus one run to completion); acknowledgements are flushed to a pipe before anything else; a fresh process reopens the file and reports every log\'s checkpoint (verified under log and witness keys) and the log list; compared with the model\'s prediction for that kill point; non-trivial = the process was killed',
      assumptions=['SQLite journal/fsync behaviour is trusted; SIGKILL does not model power loss'],
      exhaustive=True)
 
